@@ -59,8 +59,8 @@ OBLIGATIONS += [
     gavr("imm", "G_IMM", ["DecodeImm", "DecodeCBR", "DecodeSER"], "7 register-immediate instructions, CBR, SER x register number 0..39, any 64-bit constant"),
     gavr("rel", "G_REL", ["DecodeRel", "DecodeRJMPCALL", "GetWordCodeAddress", "GetNextCodeAddress"], "18 conditional branches, RJMP, RCALL; any 64-bit target, any PC below 64K words"),
     gavr("bit", "G_BIT", ["DecodeBit", "DecodeBCLRSET"], "BLD/BST/SBRC/SBRS x register 0..39 x any bit value; BSET/BCLR any value"),
-    gavr("io", "G_IO", ["DecodeINOUT", "DecodeADIW", "DecodeMOVW", "DecodeMULS"], "IN, OUT, ADIW, SBIW, MOVW, MULS with register numbers 0..39 and any 64-bit constant"),
+    gavr("io", "G_IO", ["DecodeINOUT", "DecodeADIW", "DecodeMOVW", "DecodeMULS", "DecodeLDSSTS", "DecodeJMPCALL"], "IN, OUT, ADIW, SBIW, MOVW, MULS, LDS, STS, JMP, CALL with register numbers 0..39 and any 64-bit constant"),
 ]
-META = dict(outside=["6502/65C02, Z80, MSP430 (no harness)", "AVR: LD/ST/LDD/STD/LDS/STS/LPM/ELPM/JMP/CALL/SBI/CBI/SBIC/SBIS/FMUL*, byte-addressed code segment, cores below megaAVR, register aliases", "8080/8085: Z80-syntax mode, undocumented 8085 instructions", "PIC16: default destination, OPTION/TRIS/BANKSEL/SFR/ZERO/DATA pseudo forms", "mnemonic hash dispatch (asmitree.c)", "operand text parsing beyond the concrete forms",
+META = dict(outside=["6502/65C02, Z80, MSP430 (no harness)", "AVR: LD/ST/LDD/STD/LPM/ELPM/SBI/CBI/SBIC/SBIS/FMUL*, byte-addressed code segment, cores below megaAVR, register aliases", "8080/8085: Z80-syntax mode, undocumented 8085 instructions", "PIC16: default destination, OPTION/TRIS/BANKSEL/SFR/ZERO/DATA pseudo forms", "mnemonic hash dispatch (asmitree.c)", "operand text parsing beyond the concrete forms",
                      "JCN with a numeric condition, DATA/DS/REG pseudo instructions"],
             assumptions=["malloc never fails"])
